@@ -2,6 +2,7 @@
 # check_seeds.sh [seed-dir...]: re-evaluates the stored seeded changes against the current /repo and the
 # current checks; writes /verif/seeded/STATUS.txt (one line per seed: applies?, confirmed?, caught by which check).
 cd /verif/seeded
+[ -z "$VERIF_SNAP" ] && { eval "$(/verif/tools/snapshot.sh)"; trap "rm -rf $VERIF_SNAP" EXIT; }
 out=/verif/seeded/STATUS.txt; : > $out.tmp
 for d in ${@:-$(ls -d C*/ | tr -d /)}; do
   prop=$(jq -r .property $d/meta.json)
